@@ -96,9 +96,13 @@ Kinds   == Range(KindSeq)
 \* changes nothing - the next failing call returns the fallback again, on this and on every other function
 \* decorated with it.  (Named deviation MemoisedResultIsShared: a result served from a memo is the object
 \* the first call returned; the drivers do not mutate results of chains with a cache layer.)
-BindKindSeq == KindSeq \o <<"try_list">>
-ClassOf(kind) == IF kind \in {"try_none", "try_zero", "try_list"} THEN "try_value" ELSE kind
-ParOf(kind)   == IF kind = "try_zero" THEN VInt(0) ELSE IF kind = "try_list" THEN VLst(<<>>) ELSE None
+\* pd2np_exc = pd2np(exc = ['a', 'b', 'x']): the named parameters are exempt from the pandas -> numpy conversion;
+\* on non-pandas input there is nothing to convert, so it is as transparent as plain pd2np.
+BindKindSeq == KindSeq \o <<"try_list", "pd2np_exc">>
+ClassOf(kind) == IF kind \in {"try_none", "try_zero", "try_list"} THEN "try_value"
+                 ELSE IF kind = "pd2np_exc" THEN "pd2np" ELSE kind
+ParOf(kind)   == IF kind = "try_zero" THEN VInt(0) ELSE IF kind = "try_list" THEN VLst(<<>>)
+                 ELSE IF kind = "pd2np_exc" THEN VLst(<<VStr("a"), VStr("b"), VStr("x")>>) ELSE None
 LayerOf(kind) == <<ClassOf(kind), ParOf(kind)>>
 Layers  == {LayerOf(k) : k \in Kinds}
 
